@@ -319,13 +319,15 @@ def main():
     for _ in range(a.n):
         t1 = rand_tree(rng, 3)
         t2 = clone(t1) if rng.random() < 0.4 else (mutate_tree(rng, t1) if rng.random() < 0.7 else rand_tree(rng, 3))
+        subclassed = False
         if rng.random() < 0.2:
+            subclassed = True
             # both trees are instances of USER SUBCLASSES of Node (with empty __slots__, an extra slot, or no __slots__ at all): equality
             # is still structural
             kind = rng.randrange(3)
             t1, t2 = as_subclass(t1, kind), as_subclass(t2, kind)
             stats["node_subclass_pairs"] = stats.get("node_subclass_pairs", 0) + 1
-        if rng.random() < 0.3:
+        if not subclassed and rng.random() < 0.3:       # (edits insert plain Node objects: a tree of mixed classes is outside the property's domain)
             # trees EDITED IN PLACE after construction (children is a public list: pruning comment nodes, appending to a node
             # built empty, replacing a leaf): equality must look at the tree as it is now
             t1, t2 = edit_in_place(rng, t1), edit_in_place(rng, t2)
